@@ -352,3 +352,115 @@ Proof.
   destruct (len - 2 <? 272); [|discriminate].
   apply Ok_inj in H; subst evs. cbn [forallb]. rewrite enc_bittree_ok. reflexivity.
 Qed.
+
+(* ---------------------------------------------------------------------------------------------
+   5. Literals.  The table offset [lbase] is additive and factored out; the walk itself is checked
+   for every (byte, match byte) pair. *)
+Definition shift_ev (d : Z) (ev : event) : event :=
+  match ev with
+  | EBit k b => EBit (d + k) b
+  | EDirect n v => EDirect n v
+  end.
+
+Lemma enc_lit_matched_shift lbase n : forall m off s,
+  enc_lit_matched lbase n m off s = map (shift_ev lbase) (enc_lit_matched 0 n m off s).
+Proof.
+  induction n as [|k IH]; intros m off s; cbn [enc_lit_matched map shift_ev]; [reflexivity|].
+  rewrite IH, Z.add_0_l. reflexivity.
+Qed.
+
+Lemma enc_lit_normal_shift lbase n : forall s,
+  enc_lit_normal lbase n s = map (shift_ev lbase) (enc_lit_normal 0 n s).
+Proof.
+  induction n as [|k IH]; intros s; cbn [enc_lit_normal map shift_ev]; [reflexivity|].
+  rewrite IH, Z.add_0_l. reflexivity.
+Qed.
+
+Lemma lit_matched_shift lbase n : forall m off s evs r rest,
+  run_trace (lit_matched 0 n m off s) evs = Some (Ok r, []) ->
+  run_trace (lit_matched lbase n m off s) (map (shift_ev lbase) evs ++ rest) = Some (Ok r, rest).
+Proof.
+  induction n as [|k IH]; intros m off s evs r rest H; cbn [lit_matched run_trace] in H |- *.
+  - injection H as <- ->. reflexivity.
+  - destruct evs as [|[key' b | n' v] tl]; try discriminate.
+    destruct ((0 + (off + Z.land (wrap32 (m * 2)) off + s) =? key') && ((b =? 0) || (b =? 1))) eqn:E;
+      [|discriminate].
+    apply andb_true_iff in E as [E1 E2]. apply Z.eqb_eq in E1. rewrite Z.add_0_l in E1. subst key'.
+    cbn [map shift_ev app]. rewrite Z.eqb_refl, E2. cbn [andb].
+    apply IH, H.
+Qed.
+
+Lemma bittree_shift lbase n : forall s evs r rest,
+  run_trace (bittree 0 n s) evs = Some (Ok r, []) ->
+  run_trace (bittree lbase n s) (map (shift_ev lbase) evs ++ rest) = Some (Ok r, rest).
+Proof.
+  induction n as [|k IH]; intros s evs r rest H; cbn [bittree run_trace] in H |- *.
+  - injection H as <- ->. reflexivity.
+  - destruct evs as [|[key' b | n' v] tl]; try discriminate.
+    destruct ((0 + s =? key') && ((b =? 0) || (b =? 1))) eqn:E; [|discriminate].
+    apply andb_true_iff in E as [E1 E2]. apply Z.eqb_eq in E1. rewrite Z.add_0_l in E1. subst key'.
+    cbn [map shift_ev app]. rewrite Z.eqb_refl, E2. cbn [andb].
+    apply IH, H.
+Qed.
+
+Definition lit_chk_res (r : option (outcome Z * list event)) (b : Z) : bool :=
+  match r with
+  | Some (Ok s, []) => s =? 256 + b
+  | _ => false
+  end.
+
+Lemma lit_chk_res_inv r b : lit_chk_res r b = true -> r = Some (Ok (256 + b), []).
+Proof.
+  unfold lit_chk_res. destruct r as [[[s| | |] [|e l]]|]; try discriminate.
+  intros H. apply Z.eqb_eq in H. subst s. reflexivity.
+Qed.
+
+Definition lit_matched_chk (b m : Z) : bool :=
+  lit_chk_res (run_trace (lit_matched 0 8 m 256 1) (enc_lit_matched 0 8 m 256 (Z.lor b 256))) b.
+Definition lit_normal_chk (b : Z) : bool :=
+  lit_chk_res (run_trace (bittree 0 8 1) (enc_lit_normal 0 8 (Z.lor b 256))) b.
+Definition lit_chk_row (b : Z) : bool :=
+  lit_normal_chk b && forallb (lit_matched_chk b) (zrange 0 256).
+
+(* finite domain: 256 bytes x (no match byte + 256 match bytes), enumerated *)
+Lemma lit_sweep : forallb lit_chk_row (zrange 0 256) = true.
+Proof. vm_compute. reflexivity. Qed.
+
+Theorem lit_roundtrip_strong lbase mb b rest :
+  0 <= b < 256 -> (mb = None \/ exists m, mb = Some m /\ 0 <= m < 256) ->
+  run_trace (lit_prog lbase mb) (lit_events lbase mb b ++ rest) = Some (Ok (256 + b), rest).
+Proof.
+  intros Hb Hm. pose proof lit_sweep as S. rewrite forallb_forall in S.
+  specialize (S b (in_zrange 0 256 b ltac:(lia))). unfold lit_chk_row in S.
+  apply andb_true_iff in S as [Sn Sm].
+  destruct Hm as [-> | (m & -> & Hm)]; unfold lit_prog, lit_events.
+  - rewrite enc_lit_normal_shift. apply bittree_shift.
+    apply lit_chk_res_inv, Sn.
+  - rewrite forallb_forall in Sm. specialize (Sm m (in_zrange 0 256 m ltac:(lia))).
+    rewrite enc_lit_matched_shift. apply lit_matched_shift.
+    apply lit_chk_res_inv, Sm.
+Qed.
+
+Theorem lit_roundtrip lbase mb b rest :
+  0 <= b < 256 -> (mb = None \/ exists m, mb = Some m /\ 0 <= m < 256) ->
+  exists sym, run_trace (lit_prog lbase mb) (lit_events lbase mb b ++ rest) = Some (Ok sym, rest) /\
+              wrap8 sym = b.
+Proof.
+  intros Hb Hm. exists (256 + b). split; [apply lit_roundtrip_strong; assumption|].
+  unfold wrap8. lia.
+Qed.
+
+Lemma enc_lit_matched_ok lbase n : forall m off s, forallb ev_ok (enc_lit_matched lbase n m off s) = true.
+Proof.
+  induction n as [|k IH]; intros m off s; cbn [enc_lit_matched forallb]; [reflexivity|].
+  rewrite IH, ev_ok_bit by apply land_1_cases. reflexivity.
+Qed.
+
+Lemma enc_lit_normal_ok lbase n : forall s, forallb ev_ok (enc_lit_normal lbase n s) = true.
+Proof.
+  induction n as [|k IH]; intros s; cbn [enc_lit_normal forallb]; [reflexivity|].
+  rewrite IH, ev_ok_bit by apply land_1_cases. reflexivity.
+Qed.
+
+Theorem lit_events_ok lbase mb b : forallb ev_ok (lit_events lbase mb b) = true.
+Proof. destruct mb; [apply enc_lit_matched_ok | apply enc_lit_normal_ok]. Qed.
